@@ -47,8 +47,20 @@ def replay(ctx, vecs, uni, label, strategies="iface,any", extra=()):
         json.dump(uni, fh)
     with open(vp, "w") as fh:
         json.dump(vecs, fh)
-    rep = vlib.run_harness_json(ctx, "exec", ["replay", "-universe", up, "-vectors", vp, "-strategies", strategies] + list(extra),
-                                timeout=3000)
+    # cases are spread over list modes / binding modes / layouts by position: quick takes the assignment the seed gives,
+    # thorough all six
+    rep = None
+    for rot in ([ctx.seed % 6] if ctx.tier == "quick" else range(6)):
+        r = vlib.run_harness_json(ctx, "exec", ["replay", "-universe", up, "-vectors", vp, "-strategies", strategies, "-rot", str(rot)] + list(extra),
+                                  timeout=3000)
+        if rep is None:
+            rep = r
+            continue
+        rep["evaluations"] += r["evaluations"]
+        rep["nontrivial_hashes"] = sorted(set(rep.get("nontrivial_hashes") or []) | set(r.get("nontrivial_hashes") or []))
+        rep["mismatches"] += r["mismatches"]
+        for k, v in (r.get("classes") or {}).items():
+            rep.setdefault("classes", {})[k] = rep.get("classes", {}).get(k, 0) + v
     return rep
 
 
